@@ -90,7 +90,7 @@ def model_value(model, e):
 
 
 def decide(check, crate, oid, setup, post, replay=None, rb=None, unwind=8, enums=None, models=None, allow_panic=None,
-           max_cex=1, timeout_ms=30000, min_paths=1, note=None, known_predicates=None, budget_s=600, describe=None):
+           max_cex=1, timeout_ms=30000, min_paths=1, note=None, known_predicates=None, budget_s=600, describe=None, merge=None):
     """One obligation.
 
     setup(ex, st) -> (fname, args, inputs)         inputs: dict name -> z3 expr / python value (reported in counterexamples)
@@ -105,6 +105,9 @@ def decide(check, crate, oid, setup, post, replay=None, rb=None, unwind=8, enums
     t0 = time.time()
     ex = crate.exec(enums=enums, models=models, unwind=unwind, timeout_ms=timeout_ms)
     ex.deadline = time.time() + budget_s
+    if merge:
+        import re as _re
+        ex.merge_pat = _re.compile(merge)
     st = State()
     detail = dict(paths=0, panics_paths=0, returns=0, queries=0, unwound=0)
     status = "holds"
@@ -176,6 +179,8 @@ def decide(check, crate, oid, setup, post, replay=None, rb=None, unwind=8, enums
     detail["solver_seconds"] = round(ex.solver_time, 3)
     detail["models_used"] = sorted(ex.used_models)
     detail["unwind"] = unwind
+    if merge:
+        detail["merged_calls"] = ex.merged_calls
     if note:
         detail["note"] = note
     for f in crate.fn_record(ex):
